@@ -417,6 +417,9 @@ func (e *MetaExecutor) CreateIterator(nodeID uint64, shardIDs []uint64, ctx cont
 		return nil, err
 	}
 
+	// The timeout covers the request and its response, not the stream that follows.
+	conn.SetReadDeadline(time.Time{})
+
 	return query.NewReaderIterator(ctx, conn, resp.Type, resp.Stats), nil
 }
 
@@ -476,6 +479,9 @@ func (e *MetaExecutor) ReadFilter(nodeID uint64, shardIDs []uint64, ctx context.
 		return nil, err
 	}
 
+	// The timeout covers the request and its response, not the stream that follows.
+	conn.SetReadDeadline(time.Time{})
+
 	return reads.NewResultSetStreamReader(NewStoreStreamReceiver(conn)), nil
 }
 
@@ -508,6 +514,9 @@ func (e *MetaExecutor) ReadGroup(nodeID uint64, shardIDs []uint64, ctx context.C
 		conn.Close()
 		return nil, err
 	}
+
+	// The timeout covers the request and its response, not the stream that follows.
+	conn.SetReadDeadline(time.Time{})
 
 	return reads.NewGroupResultSetStreamReader(NewStoreStreamReceiver(conn)), nil
 }
